@@ -7,4 +7,4 @@ for d in /verif/seeded/S_*; do
   out=$(bash /verif/eav/seedcheck.sh $pf ${PR[$p]} 2>&1 | grep -E "^VIOLATION|^UNDECIDED|^OK|failed obl" | cut -c1-220 | head -3 | tr '\n' ' ')
   echo "$s: $out"
 done
-git -C /repo status --short
+git -C ${VERIF_REPO:-/repo} status --short
